@@ -130,6 +130,7 @@ def run(prop, tier, *, mc_module, mc_cfg, driver, trace_module, trace_spec="TSpe
     chunks = split_at_calls(trace, wd, max_events=max_events)
     with ThreadPoolExecutor(max_workers=8) as ex:
         results = list(ex.map(lambda pn: (pn, validate(trace_module, trace_spec, pn[0], trace_consts, wd)), chunks))
+    unreproduced = []
     for (chunk, n), vr in results:
         cur_chunk, cur = chunk, vr
         rounds = 0
@@ -147,9 +148,13 @@ def run(prop, tier, *, mc_module, mc_cfg, driver, trace_module, trace_spec="TSpe
             key = key_fn(call, evs)
             replay = C.write_replay(prop, "%s" % call.get("case"), dict(property=prop, seed=C.seed(), tier=tier, case=call.get("input"), call=call, observed=evs, key=key,
                                                                         rejected_event=evs[min(idx - 1 - j, len(evs) - 1)]))
-            if not reproduce(prop, replay, binary, wd, driver, trace_module, trace_spec, trace_consts, tier, harness_extra, harness_env):
-                raise C.Infra("rejected trace did not reproduce in isolation: %s" % replay)
-            violations.append(dict(key=key, replay=replay, text="rejected event: %s" % json.dumps(evs[min(idx - 1 - j, len(evs) - 1)])[:300]))
+            if reproduce(prop, replay, binary, wd, driver, trace_module, trace_spec, trace_consts, tier, harness_extra, harness_env):
+                violations.append(dict(key=key, replay=replay, text="rejected event: %s" % json.dumps(evs[min(idx - 1 - j, len(evs) - 1)])[:300]))
+            else:
+                # e.g. state left behind by earlier cases in the same process: keep looking for a case that fails on its own
+                unreproduced.append(replay)
+                if len(unreproduced) > 12:
+                    break
             rounds += 1
             rest = open(cur_chunk).read().splitlines(keepends=True)[k:]
             if not rest:
@@ -158,6 +163,8 @@ def run(prop, tier, *, mc_module, mc_cfg, driver, trace_module, trace_spec="TSpe
             with open(nxt, "w") as f:
                 f.writelines(rest)
             cur_chunk, cur = nxt, validate(trace_module, trace_spec, nxt, trace_consts, wd)
+    if unreproduced and not violations:
+        raise C.Infra("%d rejected traces, none of which reproduced in isolation (first: %s)" % (len(unreproduced), unreproduced[0]))
     code = 0 if part else C.settle(prop, violations)
     cov = {
         "states": r.distinct, "transitions": r.generated,
